@@ -709,7 +709,7 @@ def valgrind_stage(c, version, members, n_uninit=0):
 
 def run(c):
     quick = c.tier == "quick"
-    n_pair, n_len, n_rand, n_sync = (90, 60, 40, 30) if quick else (900, 500, 400, 300)
+    n_pair, n_len, n_rand, n_sync = (90, 60, 40, 30) if quick else (2000, 1000, 800, 600)
     # G
     gen_lean = os.path.join(vlib.LEAN, "RimeModel", "Gen", "UserDbMembers.lean")
     gen_inc = os.path.join(vlib.ROOT, "harness", "gen", "c17_members.inc")
@@ -754,21 +754,39 @@ def run(c):
         scen.append(("random%d" % k, scenario_random(c.rng, "r%d" % k)))
     for k in range(n_sync):
         scen.append(("sync%d" % k, scenario_sync(c.rng, "y%d_" % k)))
-    all_ops, spans = [], []
-    for nm, ops in scen:
-        spans.append((nm, len(all_ops), len(all_ops) + len(ops)))
-        all_ops += ops
+    # the scenarios are independent worlds: run them in parallel shards (the work is fsync-bound)
+    from concurrent.futures import ThreadPoolExecutor
+    K = 2 if quick else 6
+    shards = [scen[i::K] for i in range(K)]
+
+    def run_shard(idx):
+        sops, spans = [], []
+        for nm, ops in shards[idx]:
+            spans.append((nm, len(sops), len(sops) + len(ops)))
+            sops += ops
+        impl, model, rc, raw = run_pair(c, exe, sops, "main%d" % idx, version)
+        return sops, spans, impl, model, rc, raw
+
     t0 = time.time()
-    impl, model, rc, raw = run_pair(c, exe, all_ops, "main", version)
+    with ThreadPoolExecutor(K) as ex:
+        results = list(ex.map(run_shard, range(K)))
     t_run = time.time() - t0
+    n_ops = sum(len(r[0]) for r in results)
     stats = {"dee_compared": 0, "dee_inexact": 0}
     counts = {"merge": 0, "merge_clean": 0, "idempotent": 0, "restore": 0, "import": 0, "sync": 0}
-    crashed = rc != 0 or len(impl) < len(all_ops)
+    crashes, recs = [], []
     k_fail, o_fail, distinct, kinds = [], [], set(), {}
-    for nm, lo, hi in spans:
-        ops, im, mo = all_ops[lo:hi], impl[lo:hi], model[lo:hi]
-        if len(im) < len(ops):
-            break
+    for sops, spans, impl, model, rc, raw in results:
+        if rc != 0 or len(impl) < len(sops):
+            done = len(impl)
+            nm, lo, hi = next(((a, b, d) for a, b, d in spans if b <= done < d), spans[-1])
+            crashes.append((nm, sops[lo:hi], raw))
+        for nm, lo, hi in spans:
+            ops, im, mo = sops[lo:hi], impl[lo:hi], model[lo:hi]
+            if len(im) < len(ops):
+                break
+            recs.append((nm, ops, im, mo))
+    for nm, ops, im, mo in recs:
         fails, n = monitor(ops, im)
         for k in counts:
             counts[k] += n[k]
@@ -777,20 +795,16 @@ def run(c):
         d = first_disagreement(ops, im, mo, stats)
         if d:
             k_fail.append((nm, d, ops))
-        for o, line in zip(ops, im):
-            kd = o.split(" ")[0]
-            kinds[kd] = kinds.get(kd, 0) + 1
-            if kd in ("merge", "pmerge", "restore", "import", "export", "backup") and line.startswith("ok"):
-                pass
         for j, o in enumerate(ops):
             kd = o.split(" ")[0]
+            kinds[kd] = kinds.get(kd, 0) + 1
             if kd in ("merge", "pmerge", "import", "restore", "sync") and j + 1 < len(ops) and im[j].startswith("ok"):
                 distinct.add((kd, im[j - 1] if j else "", im[j + 1]))
     # model-side evaluation of the property (search on break)
     model_viol = []
     if (not audit["ok"]) or k_fail:
-        for nm, lo, hi in spans:
-            fails, _ = monitor(all_ops[lo:hi], model[lo:hi])
+        for nm, ops, im, mo in recs:
+            fails, _ = monitor(ops, mo)
             for cl, what, j in fails:
                 model_viol.append({"scenario": nm, "clause": cl, "what": what})
     # ---- verdicts
@@ -821,12 +835,9 @@ def run(c):
                 continue
         c.report("C17:%s" % cl, "clause %s fails on the implementation: %s" % (cl, what2),
                  {"kind": "impl-violation", "clause": cl, "ops": small, "detail": what2, "scenario": nm})
-    if crashed:
-        # find the scenario it died in
-        done = len(impl)
-        nm, lo, hi = next(((a, b, d) for a, b, d in spans if b <= done < d), spans[-1])
+    for nm, cops, raw in crashes[:1]:
         c.report("C17:sanitizer", "sanitizer abort / crash of the harness in scenario %s" % nm,
-                 {"kind": "sanitizer", "ops": all_ops[lo:hi], "log": raw[-3000:]})
+                 {"kind": "sanitizer", "ops": cops, "log": raw[-3000:]})
     # probe / translator agreement is part of K (the `probe` line); valgrind
     vg_finds, vg_info, vg_ops = ([], {"skipped": True}, [])
     try:
@@ -879,9 +890,9 @@ def run(c):
                          vlib.STD_TRUSTED + ["translator gen/c17_members.py", "valgrind 3.19 memcheck",
                                              "glibc strtol/strtoul/strtod, boost::split/trim, iostream formatting as modelled",
                                              "LevelDB (ordered iteration, Get/Put)"])
-    sample_idx = [s for s in spans if s[0].startswith(("pair0", "lenient0", "uninit"))][:3]
+    sample_recs = [r for r in recs if r[0] in ("pair0", "lenient0", "sync0", "uninit-witness")][:4]
     cov.update({
-        "evaluations": len(all_ops), "distinct_nontrivial": len(distinct),
+        "evaluations": n_ops, "distinct_nontrivial": len(distinct),
         "rule": ("seeded scenarios over installations x named LevelDB user dictionaries: (pair) two dictionaries with overlapping / "
                  "disjoint keys, commits in {0, +-small, +-large, +-(2^31-1)}, arbitrary entry and db ticks (incl. 2^64-1 and gaps "
                  "that underflow dee), multi-syllable codes, UTF-8 texts: backup, plain restore into an empty dictionary, merge "
@@ -889,7 +900,8 @@ def run(c):
                  "back, export, import; (lenient) hand-made snapshot and text files exercising reader / parser / Unpack leniency; "
                  "(random) random walks over all ops. evaluations = ops executed on both sides; non-trivial = a successful "
                  "merge / restore / import / synchronize; distinct by (op kind, dictionary before, dictionary after)"),
-        "samples": [{"scenario": nm, "ops": all_ops[lo:hi][:14], "observations": impl[lo:hi][:14]} for nm, lo, hi in sample_idx],
+        "samples": [{"scenario": nm, "ops": ops[:14], "observations": [x[:400] for x in im[:14]]}
+                    for nm, ops, im, mo in sample_recs],
         "scenarios": len(scen), "op_kind_distribution": kinds, "property_clause_evaluations": counts,
         "correspondence_mismatches": len(k_fail), "impl_monitor_failures": len(o_fail),
         "model_monitor_failures": len(model_viol), "dee_values_compared": stats["dee_compared"],
